@@ -441,6 +441,34 @@ def rule_g8(repo, col):
                "chosen" % (bad[0][:70] if bad else ""), construct="add_atom: neutral weight folded", function="LogicFormula.add_atom")
 
 
+def rule_g9(repo, col):
+    """_add_compound: a MODIFIABLE node (readonly False) is private: on its paths the sharing index is not consulted and no indexed key is returned - only the key of the node that
+    _add(..., reuse=False) has just appended (a modifiable key that aliases a shared read-only node changes the meaning of that node when add_disjunct extends it)"""
+    f = repo.func(MOD, "LogicFormula._add_compound")
+    m = f.module
+    paths = dtable.extract(f.node, opaque_loops=True)
+    n = 0
+    bad = []
+    for p_ in paths:
+        cd = dict((s_, t_) for s_, t_, _ in p_.conds)
+        if cd.get("readonly") is not False:
+            continue
+        if p_.end != "return" or p_.value is None:
+            continue
+        idx_reads = [s_ for s_, _, _ in p_.conds if "_index_" in s_] + [a_ for fn, as_, _ in p_.calls for a_ in as_ if "_index_" in a_]
+        if "_index_" in p_.value or idx_reads:
+            n += 1
+            bad.append((idx_reads + [p_.value])[0])
+        elif "self._add(" in p_.value or "self._update(" in p_.value or p_.value in ("key",) or "_add(" in str(p_.env.get(p_.value, "")):
+            n += 1
+    if n == 0:
+        raise AnalysisError("_add_compound: no path for a modifiable node found")
+    col.decide("G9", m, f.node, not bad, "a modifiable node never comes from the sharing index",
+               "_add_compound consults the sharing index on a path for a modifiable node (%s): the key it returns can be the key of a read-only node that other parts of the formula "
+               "share, and a later add_disjunct on it changes what those parts mean (k = or(a,b); m = or(a,b, readonly=False); add_disjunct(m, c) makes k denote a|b|c)"
+               % (bad[0][:80] if bad else ""), construct="_add_compound: modifiable node looked up in the sharing index", function="LogicFormula._add_compound")
+
+
 def run(repo, col):
     col.rule("G1", "no `return self.m(...)` of a method that returns nothing")
     col.rule("G2", "add_and/add_or pass the right node type and (absorbing, neutral) pair")
@@ -458,3 +486,5 @@ def run(repo, col):
     rule_g7(repo, col)
     col.rule("G8", "add_atom: sharing by identifier; neutral weight never folded")
     rule_g8(repo, col)
+    col.rule("G9", "modifiable nodes are never looked up in the sharing index")
+    rule_g9(repo, col)
